@@ -481,6 +481,14 @@ def replay_stage(progs, small, work, tier, seed):
             out["searched"] += 1
             if pl:
                 recs += replay.replay([p], pl)
+    # stored behaviours (corpus/plans): counterexamples TLC found earlier, replayed on every run (a listed finding shows up deterministically)
+    allby = {p["name"]: p for p in progs}
+    for f in sorted(glob.glob(os.path.join(vlib.VERIF, "corpus", "plans", "*.json"))):
+        d = json.load(open(f))
+        p = allby.get(d["program"])
+        if p and p.get("runnable"):
+            recs += replay.replay([p], {(d["program"], d["mode"]): [{"plan": d["plan"], "out": d["out"], "err": d["err"]}]})
+            out["stored_plans"] = out.get("stored_plans", 0) + 1
     for r in recs:
         r["verdict"] = replay.judge(r)
         # a run whose heartbeat time-out fired although a process could still move (machine load) is not judged (same rule as for recorded runs)
